@@ -35,9 +35,17 @@ TEXTS = [
     # spellings that are a value in some dialects only
     "x = 16#-7F#\ny = -16#7F#\nz = 3#12#\n",
     "t = 12:00+01:30\nu = 23:59:60\nv = a+b\nw = +.5\n",
+    # an empty value is recorded, then the text fails
+    "a =\nb = 2\nGROUP = g\n c = 1\n",
+    "p = 1\nq =\nr = (1, 2\n",
+    # unquoted words, then a value with a stray comment delimiter
+    "a = word\nb = other_word\n",
+    "t = titan*/\n",
+    "t = /*titan\n",
 ]
 
 DEC_CALLS = [["simple", "16#-7F#"], ["simple", "-16#7F#"], ["simple", "3#12#"], ["simple", "23:59:60"],
+             ["simple", "a*/"], ["simple", "/*a"], ["simple", "word"], ["simple", "a b"],
              ["simple", "1"], ["simple", "1.5"], ["simple", "2001-001"], ["simple", "12:00:60"],
              ["simple", '"q  r"'], ["simple", "NULL"], ["simple", "abc"], ["simple", "16#FF#"],
              ["simple", "a b"], ["datetime", "junk"], ["quantity", "1", "m"],
@@ -78,6 +86,13 @@ def modules():
         # a number that would be a quantity if some encoder's registration leaked
         one(Length(3.5, "m")),
         lambda: P([("k" * 31, 1)]), lambda: P([("bad key", 1), ("a", 1)]),
+        # a dump that fails inside an aggregation block, and blocks whose keyword could be affected by it
+        lambda: P([("bad name", G([("a", 1), ("a", 2)]))]),
+        lambda: P([("o", O([("x", 1)])), ("bad name", G([("a", 1), ("a", 2)]))]),
+        lambda: P([("o", O([("bad name", G([("g", G([("a", 1)]))]))]))]),
+        lambda: P([("g", G([("a", 1)])), ("o", O([("b", 2)])), ("h", G([("c", 3)]))]),
+        lambda: P([("pixel-size", 2)]), lambda: P([("pixel-size", G([("a", 1)])), ("o", O([]))]),
+        lambda: P([("l", [])]), lambda: P([("g", G([("a", [])]))]),
     ]
 
 
@@ -400,8 +415,26 @@ def _kindof(out, base):
     return a + "-vs-" + b
 
 
+def _corpus_texts():
+    import glob
+    import os
+    out = []
+    for f in sorted(glob.glob(os.path.join(impl.REPO, "tests", "data", "**", "*"), recursive=True)):
+        if os.path.isfile(f) and not f.endswith(".cub"):
+            try:
+                t = open(f, encoding="utf-8").read()
+            except UnicodeDecodeError:
+                continue
+            if len(t) < 1200:
+                out.append(t)
+    return out
+
+
 def run(ctx):
     depth = 3 if ctx.quick else 4
+    if not ctx.quick:
+        # thorough: the short corpus files join the text alphabet (module-level list: forked workers inherit it)
+        TEXTS.extend(t for t in _corpus_texts() if t not in TEXTS)
     specs = []
     for name in impl.DIALECTS:
         specs.append(("parser", name, depth))
